@@ -162,7 +162,7 @@ fn cmd_check(id: &str, tier: &str) -> i32 {
                 let dir = verif_dir().join("replays");
                 let _ = std::fs::create_dir_all(&dir);
                 let path = dir.join(format!("{}-{}-{}-{}.json", p.id, sc.name(), hseed, hrun));
-                let detail = format!("[{}] run {hrun} (seed {hseed}) did not come back within {secs} s of wall-clock time: the code under test loops without yielding", sc.name());
+                let detail = format!("[{}] run {hrun} (seed {hseed}) did not come back after {secs} s of CPU time spent on it: the code under test loops without yielding", sc.name());
                 let doc = json!({
                     "property": p.id, "scenario": sc.name(), "seed": hseed, "run": hrun,
                     "oracle": "run-does-not-terminate", "detail": detail, "tape": [], "by_seed": true,
